@@ -133,7 +133,12 @@ class _P:
             self.i += 1
             while self.i < self.n and s[self.i].isdigit():
                 self.i += 1
-            return int(s[j:self.i])
+            v = int(s[j:self.i])
+            if s.startswith("..", self.i):          # interval set a..b
+                self.i += 2
+                hi = self.value()
+                return TlaSet(range(v, hi + 1))
+            return v
         j = self.i
         while self.i < self.n and (s[self.i].isalnum() or s[self.i] == "_"):
             self.i += 1
